@@ -79,20 +79,25 @@ func Convert(typ string, v any) (val, bool) {
 		}
 		switch base {
 		case "int":
+			// a value that is not an integer, or that no int64 can hold, is
+			// not convertible (it must not be clamped to some other value)
 			if !bf.IsInt() {
 				return val{}, false
 			}
-			n, _ := bf.Int64()
+			n, acc := bf.Int64()
+			if acc != big.Exact {
+				return val{}, false
+			}
 			return val{t: "int", i: n}, true
 		case "uint":
 			if !bf.IsInt() {
 				return val{}, false
 			}
-			n, _ := bf.Int64()
-			if n < 0 {
+			n, acc := bf.Uint64()
+			if acc != big.Exact {
 				return val{}, false
 			}
-			return val{t: "uint", u: uint64(n)}, true
+			return val{t: "uint", u: n}, true
 		default:
 			f, acc := bf.Float64()
 			if acc != big.Exact && (math.IsInf(f, 0)) {
@@ -240,7 +245,25 @@ func EvalCondition(c *m.Condition, req, stored map[string]any) Outcome {
 
 var errEval = fmt.Errorf("evaluation error")
 
+func boolOf(v val, err error) (bool, bool) {
+	if err != nil || v.t != "bool" {
+		return false, false
+	}
+	return v.b, true
+}
+
+func mkBool(b bool) (val, error) { return val{t: "bool", b: b}, nil }
+
+// evalExpr evaluates e following the CEL language definition: strict
+// evaluation of every operator except the commutative, error-absorbing && and
+// ||, and the conditional; an operand of a type the operator has no overload
+// for is a runtime error ("no such overload"), equality is heterogeneous
+// (values of different non-numeric types are unequal, numbers compare by
+// value across int/uint/double).
 func evalExpr(e *m.Expr, env map[string]val) (val, error) {
+	if e == nil {
+		return val{}, errEval
+	}
 	switch e.Kind {
 	case "lit":
 		return litVal(e)
@@ -251,146 +274,259 @@ func evalExpr(e *m.Expr, env map[string]val) (val, error) {
 		}
 		return v, nil
 	case "not":
-		a, err := evalExpr(e.A, env)
-		if err != nil {
-			return val{}, err
+		a, ok := boolOf(evalExpr(e.A, env))
+		if !ok {
+			return val{}, errEval
 		}
-		return val{t: "bool", b: !a.b}, nil
+		return mkBool(!a)
 	case "and", "or":
-		a, ea := evalExpr(e.A, env)
-		b, eb := evalExpr(e.B, env)
+		a, oka := boolOf(evalExpr(e.A, env))
+		b, okb := boolOf(evalExpr(e.B, env))
 		absorbing := e.Kind == "or" // true absorbs for or, false for and
-		if ea == nil && a.b == absorbing {
-			return val{t: "bool", b: absorbing}, nil
+		if (oka && a == absorbing) || (okb && b == absorbing) {
+			return mkBool(absorbing)
 		}
-		if eb == nil && b.b == absorbing {
-			return val{t: "bool", b: absorbing}, nil
+		if !oka || !okb {
+			return val{}, errEval
 		}
-		if ea != nil {
-			return val{}, ea
+		return mkBool(!absorbing)
+	case "ite":
+		if len(e.Args) != 3 {
+			return val{}, errEval
 		}
-		if eb != nil {
-			return val{}, eb
+		c, ok := boolOf(evalExpr(e.Args[0], env))
+		if !ok {
+			return val{}, errEval
 		}
-		return val{t: "bool", b: !absorbing}, nil
-	case "cmp":
+		if c {
+			return evalExpr(e.Args[1], env)
+		}
+		return evalExpr(e.Args[2], env)
+	case "list":
+		out := val{t: "list"}
+		for _, it := range e.Args {
+			v, err := evalExpr(it, env)
+			if err != nil {
+				return val{}, err
+			}
+			out.l = append(out.l, v)
+		}
+		return out, nil
+	case "size", "cidr", "sel", "has":
 		a, err := evalExpr(e.A, env)
 		if err != nil {
 			return val{}, err
 		}
-		b, err := evalExpr(e.B, env)
-		if err != nil {
-			return val{}, err
+		switch e.Kind {
+		case "size":
+			switch a.t {
+			case "list":
+				return val{t: "int", i: int64(len(a.l))}, nil
+			case "map":
+				return val{t: "int", i: int64(len(a.mp))}, nil
+			case "string":
+				return val{t: "int", i: int64(len([]rune(a.s)))}, nil
+			}
+		case "cidr":
+			if a.t != "ipaddress" {
+				return val{}, errEval
+			}
+			p, perr := netip.ParsePrefix(e.Name)
+			if perr != nil {
+				return val{}, errEval
+			}
+			return mkBool(p.Contains(a.ip))
+		case "sel":
+			if a.t == "map" {
+				if v, ok := a.mp[e.Name]; ok {
+					return v, nil
+				}
+			}
+		case "has":
+			if a.t == "map" {
+				_, ok := a.mp[e.Name]
+				return mkBool(ok)
+			}
 		}
+		return val{}, errEval
+	}
+	// strict binary operators
+	a, err := evalExpr(e.A, env)
+	if err != nil {
+		return val{}, err
+	}
+	b, err := evalExpr(e.B, env)
+	if err != nil {
+		return val{}, err
+	}
+	switch e.Kind {
+	case "cmp":
 		if e.Op == "==" || e.Op == "!=" {
-			eq := equalVal(a, b)
-			return val{t: "bool", b: eq == (e.Op == "==")}, nil
+			return mkBool(equalVal(a, b) == (e.Op == "=="))
 		}
 		c, ok := compareVal(a, b)
 		if !ok {
 			return val{}, errEval
 		}
-		var r bool
 		switch e.Op {
 		case "<":
-			r = c < 0
+			return mkBool(c < 0)
 		case "<=":
-			r = c <= 0
+			return mkBool(c <= 0)
 		case ">":
-			r = c > 0
+			return mkBool(c > 0)
 		case ">=":
-			r = c >= 0
+			return mkBool(c >= 0)
 		}
-		return val{t: "bool", b: r}, nil
 	case "in":
-		a, err := evalExpr(e.A, env)
-		if err != nil {
-			return val{}, err
-		}
-		b, err := evalExpr(e.B, env)
-		if err != nil {
-			return val{}, err
-		}
-		for _, it := range b.l {
-			if equalVal(a, it) {
-				return val{t: "bool", b: true}, nil
-			}
-		}
-		return val{t: "bool", b: false}, nil
-	case "index":
-		a, err := evalExpr(e.A, env)
-		if err != nil {
-			return val{}, err
-		}
-		b, err := evalExpr(e.B, env)
-		if err != nil {
-			return val{}, err
-		}
-		v, ok := a.mp[b.s]
-		if !ok {
-			return val{}, errEval
-		}
-		return v, nil
-	case "add":
-		a, err := evalExpr(e.A, env)
-		if err != nil {
-			return val{}, err
-		}
-		b, err := evalExpr(e.B, env)
-		if err != nil {
-			return val{}, err
-		}
-		switch {
-		case a.t == "int" && b.t == "int":
-			s := a.i + b.i
-			if (b.i > 0 && s < a.i) || (b.i < 0 && s > a.i) {
-				return val{}, errEval
-			}
-			return val{t: "int", i: s}, nil
-		case a.t == "string" && b.t == "string":
-			return val{t: "string", s: a.s + b.s}, nil
-		case a.t == "timestamp" && b.t == "duration":
-			return val{t: "timestamp", ts: a.ts.Add(b.d)}, nil
-		case a.t == "duration" && b.t == "duration":
-			return val{t: "duration", d: a.d + b.d}, nil
-		}
-		return val{}, errEval
-	case "cidr":
-		a, err := evalExpr(e.A, env)
-		if err != nil {
-			return val{}, err
-		}
-		p, perr := netip.ParsePrefix(e.Name)
-		if perr != nil {
-			return val{}, errEval
-		}
-		return val{t: "bool", b: p.Contains(a.ip)}, nil
-	case "starts":
-		a, err := evalExpr(e.A, env)
-		if err != nil {
-			return val{}, err
-		}
-		b, err := evalExpr(e.B, env)
-		if err != nil {
-			return val{}, err
-		}
-		return val{t: "bool", b: strings.HasPrefix(a.s, b.s)}, nil
-	case "size":
-		a, err := evalExpr(e.A, env)
-		if err != nil {
-			return val{}, err
-		}
-		switch a.t {
+		switch b.t {
 		case "list":
-			return val{t: "int", i: int64(len(a.l))}, nil
+			for _, it := range b.l {
+				if equalVal(a, it) {
+					return mkBool(true)
+				}
+			}
+			return mkBool(false)
 		case "map":
-			return val{t: "int", i: int64(len(a.mp))}, nil
-		case "string":
-			return val{t: "int", i: int64(len([]rune(a.s)))}, nil
+			// context maps have string keys only
+			_, ok := b.mp[a.s]
+			return mkBool(a.t == "string" && ok)
 		}
-		return val{}, errEval
+	case "index":
+		switch a.t {
+		case "map":
+			if b.t == "string" {
+				if v, ok := a.mp[b.s]; ok {
+					return v, nil
+				}
+			}
+		case "list":
+			if b.t == "int" && b.i >= 0 && b.i < int64(len(a.l)) {
+				return a.l[b.i], nil
+			}
+		}
+	case "add", "sub", "mul", "div", "mod":
+		return arith(e.Kind, a, b)
+	case "starts", "contains", "ends":
+		if a.t != "string" || b.t != "string" {
+			return val{}, errEval
+		}
+		switch e.Kind {
+		case "starts":
+			return mkBool(strings.HasPrefix(a.s, b.s))
+		case "contains":
+			return mkBool(strings.Contains(a.s, b.s))
+		}
+		return mkBool(strings.HasSuffix(a.s, b.s))
 	}
 	return val{}, errEval
+}
+
+var (
+	minInt64  = big.NewInt(math.MinInt64)
+	maxInt64  = big.NewInt(math.MaxInt64)
+	maxUint64 = new(big.Int).SetUint64(math.MaxUint64)
+)
+
+// arith implements + - * / % : checked 64-bit integer arithmetic (overflow,
+// division by zero are errors), IEEE doubles (no modulus), string and list
+// concatenation, timestamp/duration arithmetic. No mixed-type overloads.
+func arith(op string, a, b val) (val, error) {
+	switch {
+	case (a.t == "int" && b.t == "int") || (a.t == "uint" && b.t == "uint"):
+		var x, y *big.Int
+		if a.t == "int" {
+			x, y = big.NewInt(a.i), big.NewInt(b.i)
+		} else {
+			x, y = new(big.Int).SetUint64(a.u), new(big.Int).SetUint64(b.u)
+		}
+		r := new(big.Int)
+		switch op {
+		case "add":
+			r.Add(x, y)
+		case "sub":
+			r.Sub(x, y)
+		case "mul":
+			r.Mul(x, y)
+		case "div", "mod":
+			if y.Sign() == 0 {
+				return val{}, errEval
+			}
+			if op == "div" {
+				r.Quo(x, y) // truncated division
+			} else {
+				if a.t == "int" && a.i == math.MinInt64 && b.i == -1 {
+					return val{}, errEval // the quotient overflows
+				}
+				r.Rem(x, y) // sign follows the dividend
+			}
+		}
+		if a.t == "int" {
+			if r.Cmp(minInt64) < 0 || r.Cmp(maxInt64) > 0 {
+				return val{}, errEval
+			}
+			return val{t: "int", i: r.Int64()}, nil
+		}
+		if r.Sign() < 0 || r.Cmp(maxUint64) > 0 {
+			return val{}, errEval
+		}
+		return val{t: "uint", u: r.Uint64()}, nil
+	case a.t == "double" && b.t == "double":
+		switch op {
+		case "add":
+			return val{t: "double", f: a.f + b.f}, nil
+		case "sub":
+			return val{t: "double", f: a.f - b.f}, nil
+		case "mul":
+			return val{t: "double", f: a.f * b.f}, nil
+		case "div":
+			return val{t: "double", f: a.f / b.f}, nil
+		}
+	case a.t == "string" && b.t == "string" && op == "add":
+		return val{t: "string", s: a.s + b.s}, nil
+	case a.t == "list" && b.t == "list" && op == "add":
+		return val{t: "list", l: append(append([]val{}, a.l...), b.l...)}, nil
+	case a.t == "timestamp" && b.t == "duration" && (op == "add" || op == "sub"):
+		d := b.d
+		if op == "sub" {
+			d = -d
+		}
+		return tsInRange(a.ts.Add(d))
+	case a.t == "duration" && b.t == "timestamp" && op == "add":
+		return tsInRange(b.ts.Add(a.d))
+	case a.t == "timestamp" && b.t == "timestamp" && op == "sub":
+		r := new(big.Int).Sub(unixNanos(a.ts), unixNanos(b.ts))
+		if !r.IsInt64() {
+			return val{}, errEval
+		}
+		return val{t: "duration", d: time.Duration(r.Int64())}, nil
+	case a.t == "duration" && b.t == "duration" && (op == "add" || op == "sub"):
+		x, y := big.NewInt(int64(a.d)), big.NewInt(int64(b.d))
+		r := new(big.Int)
+		if op == "add" {
+			r.Add(x, y)
+		} else {
+			r.Sub(x, y)
+		}
+		if !r.IsInt64() {
+			return val{}, errEval
+		}
+		return val{t: "duration", d: time.Duration(r.Int64())}, nil
+	}
+	return val{}, errEval
+}
+
+func unixNanos(t time.Time) *big.Int {
+	r := new(big.Int).Mul(big.NewInt(t.Unix()), big.NewInt(1_000_000_000))
+	return r.Add(r, big.NewInt(int64(t.Nanosecond())))
+}
+
+// CEL timestamps range over 0001-01-01T00:00:00Z .. 9999-12-31T23:59:59.999999999Z.
+func tsInRange(t time.Time) (val, error) {
+	if t.Unix() < -62135596800 || t.Unix() > 253402300799 {
+		return val{}, errEval
+	}
+	return val{t: "timestamp", ts: t}, nil
 }
 
 func litVal(e *m.Expr) (val, error) {
@@ -399,9 +535,9 @@ func litVal(e *m.Expr) (val, error) {
 		b, _ := e.V.(bool)
 		return val{t: "bool", b: b}, nil
 	case "int":
-		return val{t: "int", i: num64(e.V)}, nil
+		return val{t: "int", i: m.LitInt64(e.V)}, nil
 	case "uint":
-		return val{t: "uint", u: uint64(num64(e.V))}, nil
+		return val{t: "uint", u: m.LitUint64(e.V)}, nil
 	case "double":
 		f, _ := e.V.(float64)
 		if i, ok := e.V.(int); ok {
@@ -422,6 +558,14 @@ func litVal(e *m.Expr) (val, error) {
 			return val{}, errEval
 		}
 		return val{t: "timestamp", ts: ts}, nil
+	case "ipaddress":
+		a, err := netip.ParseAddr(fmt.Sprint(e.V))
+		if err != nil {
+			return val{}, errEval
+		}
+		return val{t: "ipaddress", ip: a.Unmap()}, nil
+	case "null":
+		return val{t: "null"}, nil
 	}
 	return val{}, errEval
 }
